@@ -302,6 +302,12 @@ def run(ctx: Ctx):
         if not m1 or m1 != m2 or "hop_by_hop_identifier" not in m1 or "end_to_end_identifier" not in m1:
             ctx.fail("message-id:agreement", g.loc(s), f"the transaction key built on reception "
                      f"({m1}) and the one built when the answer is recorded ({m2}) differ")
+        elif "ident" not in m1:
+            ctx.fail("message-id:agreement#connection", g.loc(s), f"the transaction key {m1} does not "
+                     f"contain the connection: hop-by-hop and end-to-end identifiers are chosen by "
+                     f"the peers, the same pair on two connections overwrites the first request's "
+                     f"origin - its answer is entered into the wrong origin's window (a request never "
+                     f"answered to that origin is then rejected as duplicate)")
     # key agreement
     cons = "origin-key:agreement"
     lookup = _norm(ast.parse(win_key, mode="eval").body, msg) if win_key else None
